@@ -104,9 +104,9 @@ theorem AllowedQ.mono {env : Env} {e e' : Expr} (hc : hasCommand e = true → ha
 macro "qs_tail" : tactic =>
   `(tactic| repeat' (first | exact True.intro | assumption | split | (dsimp only; split)))
 
-theorem loop_qs {env : Env} {tf : Int → Option Bytes} {root : Msg} {e : Expr} {P : Req → Prop}
-    (ih : ∀ (part : Nat) (m : Msg) (st : St), (evalT env tf root e part m st).Qs P) (part : Nat) (ps : List Msg) :
-    ∀ (i : Nat) (st : St), (evalT.loop env tf root e part ps i st).Qs P := by
+theorem loop_qs {env : Env} {root : Msg} {e : Expr} {P : Req → Prop}
+    (ih : ∀ (part : Nat) (m : Msg) (st : St), (evalT env root e part m st).Qs P) (part : Nat) (ps : List Msg) :
+    ∀ (i : Nat) (st : St), (evalT.loop env root e part ps i st).Qs P := by
   induction ps with
   | nil => intro i st; simp only [evalT.loop]; exact True.intro
   | cons p rest ihp =>
@@ -116,9 +116,9 @@ theorem loop_qs {env : Env} {tf : Int → Option Bytes} {root : Msg} {e : Expr} 
     obtain ⟨ev, s1⟩ := a
     cases ev <;> first | exact True.intro | exact ihp _ _
 
-theorem loopB_qs {env : Env} {tf : Int → Option Bytes} {root : Msg} {e : Expr} {P : Req → Prop}
-    (ih : ∀ (part : Nat) (m : Msg) (st : St), (evalT env tf root e part m st).Qs P) (part : Nat) (ps : List Msg) :
-    ∀ (i : Nat) (ev0 : Tri) (st : St), (evalT.loopB env tf root e part ps i ev0 st).Qs P := by
+theorem loopB_qs {env : Env} {root : Msg} {e : Expr} {P : Req → Prop}
+    (ih : ∀ (part : Nat) (m : Msg) (st : St), (evalT env root e part m st).Qs P) (part : Nat) (ps : List Msg) :
+    ∀ (i : Nat) (ev0 : Tri) (st : St), (evalT.loopB env root e part ps i ev0 st).Qs P := by
   induction ps with
   | nil => intro i ev0 st; simp only [evalT.loopB]; exact True.intro
   | cons p rest ihp =>
@@ -129,8 +129,8 @@ theorem loopB_qs {env : Env} {tf : Int → Option Bytes} {root : Msg} {e : Expr}
     cases ev <;> first | exact True.intro | exact ihp _ _ _
 
 /-- Every question of the evaluation of `e` is of a kind `e` contains. -/
-theorem evalT_qs (env : Env) (tf : Int → Option Bytes) (root : Msg) (e : Expr) :
-    ∀ (part : Nat) (m : Msg) (st : St), (evalT env tf root e part m st).Qs (AllowedQ env e) := by
+theorem evalT_qs (env : Env) (root : Msg) (e : Expr) :
+    ∀ (part : Nat) (m : Msg) (st : St), (evalT env root e part m st).Qs (AllowedQ env e) := by
   induction e with
   | block lno e ih =>
     intro part m st
@@ -223,28 +223,28 @@ def asksFree (e : Expr) : Bool := !hasCommand e && !hasIsDir e && !hasFileDate e
 
 /-- **A tree without `command`, `isdirectory` and file-time `date` conditions is evaluated by `Model.eval`**: its
 computation asks nothing (whatever the three oracles of `env` are: they are not consulted). -/
-theorem evalT_asksFree (env : Env) (tf : Int → Option Bytes) (root : Msg) (e : Expr) (h : asksFree e = true)
+theorem evalT_asksFree (env : Env) (root : Msg) (e : Expr) (h : asksFree e = true)
     (part : Nat) (m : Msg) (st : St) :
-    evalT (noSys env) tf root e part m st = .ret (eval env root e part m st) := by
+    evalT (noSys env) root e part m st = .ret (eval env root e part m st) := by
   simp only [asksFree, Bool.and_eq_true, Bool.not_eq_true'] at h
-  have hq : (evalT (noSys env) tf root e part m st).Qs fun _ => False := by
-    refine (evalT_qs (noSys env) tf root e part m st).mono fun q hq => ?_
+  have hq : (evalT (noSys env) root e part m st).Qs fun _ => False := by
+    refine (evalT_qs (noSys env) root e part m st).mono fun q hq => ?_
     cases q with
     | command av => simp only [AllowedQ, h.1.1] at hq; cases hq
     | isDir p => simp only [AllowedQ, h.1.2] at hq; cases hq
     | fileTime p f => simp only [AllowedQ, h.2] at hq; cases hq.1
   obtain ⟨a, ha⟩ := Ask.eq_ret_of_qs_false hq
-  have := evalT_eq_eval env tf root e part m st [] (by
+  have := evalT_eq_eval env root e part m st [] (by
     rw [ha]; intro k q hk; simp at hk)
   rw [ha] at this ⊢
   simp only [Ask.run_ret] at this
   rw [this]
 
 /-- ... and so `evalP` issues no call at all and returns the value of `eval`. -/
-theorem evalP_asksFree (env : Env) (tf : Int → Option Bytes) (e : Expr) (h : asksFree e = true) (m : Msg) (fl : MFlags) :
-    evalP (noSys env) tf e m fl = .ret (eval env m e 0 m { ml := [], flags := fl }) := by
+theorem evalP_asksFree (env : Env) (e : Expr) (h : asksFree e = true) (m : Msg) (fl : MFlags) :
+    evalP (noSys env) e m fl = .ret (eval env m e 0 m { ml := [], flags := fl }) := by
   unfold evalP evalTop
-  rw [evalT_asksFree env tf m e h]
+  rw [evalT_asksFree env m e h]
   rfl
 
 theorem calls_toProg_qs {α} {P : Req → Prop} {C : Call → Prop} {t : Ask α} (ht : t.Qs P)
@@ -267,9 +267,9 @@ theorem EvalCallOf.evalCall {e : Expr} {c : Call} (h : EvalCallOf e c) : EvalCal
   · exact .inr (.inr (.inr (.inl h)))
   · exact .inr (.inr (.inr (.inr h)))
 
-theorem evalP_calls_of (env : Env) (tf : Int → Option Bytes) (e : Expr) (m : Msg) (fl : MFlags) :
-    Calls (EvalCallOf e) (evalP env tf e m fl) := by
-  refine calls_toProg_qs (evalT_qs env tf m e 0 m _) fun q hq => ?_
+theorem evalP_calls_of (env : Env) (e : Expr) (m : Msg) (fl : MFlags) :
+    Calls (EvalCallOf e) (evalP env e m fl) := by
+  refine calls_toProg_qs (evalT_qs env m e 0 m _) fun q hq => ?_
   cases q with
   | command av =>
     exact Calls.bind (calls_mono' execCall_execP fun c hc => .inl ⟨hq, hc⟩) fun _ => True.intro
